@@ -65,6 +65,12 @@ pub fn any_pre() -> Pre {
 /// constant `valid` the loops over the line fold during symbolic execution, which
 /// is what makes the Enter-class harnesses fit into memory (one instance per length).
 pub fn any_pre_valid(valid: usize) -> Pre {
+    let prompt: usize = kani::any();
+    any_pre_fixed(valid, prompt)
+}
+
+/// ... and with a given prompt (a constant prompt lets the prompt writes fold, too).
+pub fn any_pre_fixed(valid: usize, prompt: usize) -> Pre {
     let ebuf: [u8; N] = kani::any();
     let cursor: usize = kani::any();
     kani::assume(valid <= N);
@@ -91,7 +97,6 @@ pub fn any_pre_valid(valid: usize) -> Pre {
     {
         kani::assume(hused == 0 && hcursor.is_none());
     }
-    let prompt: usize = kani::any();
     kani::assume(prompt < 3);
     Pre {
         ebuf,
